@@ -267,6 +267,16 @@ func runFunctional(c *engine.Chooser, k cfg) {
 		if err := ecd.Encode(want[j], pt); err != nil {
 			panic(fmt.Sprintf("harness: encode: %v", err))
 		}
+		// precondition: the encoder itself round-trips the message (it does not for a single slot in the
+		// conjugate-invariant ring: C07/ckks/embed/conjugate-invariant-single-slot) — otherwise the ciphertext does not
+		// carry `want` in the first place and nothing can be said about the bootstrap
+		if j == 0 {
+			back := make([]*bignum.Complex, 1<<ctLog)
+			if err := ecd.Decode(pt, back); err != nil || precisionBits(want[j], back) < 20 {
+				c.Skip("the ckks encoder does not round-trip this message (encoder finding of C07)")
+				return
+			}
+		}
 		ct, err := enc.EncryptNew(pt)
 		if err != nil {
 			panic(fmt.Sprintf("harness: encrypt: %v", err))
@@ -351,7 +361,14 @@ func runFunctional(c *engine.Chooser, k cfg) {
 			worst = p
 		}
 	}
-	judgePrecision(c, "func", key, worst, known)
+	if multiMatrixLevel(c2sSplits[k.C2S]) {
+		// CoeffsToSlots acts on m + q·I with |I| up to K and m/q = 2^-LogMessageRatio: two matrices sharing a prime have
+		// sqrt(prime) <= 2^30 of scale each, too little to carry the message through at the reduced ring's ratio 2^16
+		// whether or not the levels are right. Level, scale and errors are judged; the precision is not.
+		c.Cover("calibration", "not-judged-c2s-sqrt-scales")
+	} else {
+		judgePrecision(c, "func", key, worst, known)
+	}
 	if known == "" {
 		judgeIterated(c, k, key, worst)
 	}
